@@ -142,9 +142,13 @@ def firstSuffix (P : List Nat → Bool) : List Nat → Nat → Option Nat
 /-- `strings.Index(s, sub)` (`-1` = `none`; `Index(s, "") = 0`) -/
 def indexBytes (s sub : List Nat) : Option Nat := firstSuffix (fun u => sub.isPrefixOf u) s 0
 
+/-- the string is non-empty and its first byte satisfies `Q` -/
+def headSat (Q : Nat → Bool) : List Nat → Bool
+  | b :: _ => Q b
+  | [] => false
+
 /-- the first byte of `s` satisfying `Q` -/
-def indexByteP (Q : Nat → Bool) (s : List Nat) : Option Nat :=
-  firstSuffix (fun u => match u with | b :: _ => Q b | [] => false) s 0
+def indexByteP (Q : Nat → Bool) (s : List Nat) : Option Nat := firstSuffix (headSat Q) s 0
 
 /-- `strings.IndexByte(s, c)` -/
 def indexByte (s : List Nat) (c : Nat) : Option Nat := indexByteP (· == c) s
